@@ -1521,7 +1521,15 @@ func (e *Engine) callFn(s *State, f *Frame, fn *ssa.Function, args []Val, bind [
 			// an assumed contract says what the dependency may write: exactly its modifies= parameters (done in unknownCall,
 			// after the arguments were frozen for old_x)
 		} else if !readOnlyExternal(fn.String()) {
-			for _, a := range args {
+			for ai, a := range args {
+				if ai == 0 && fn.Signature.Recv() != nil {
+					continue // the receiver is the dependency's own object
+				}
+				if iv, ok := a.(IfaceV); ok { // json.Unmarshal(payload, &msg): a pointer handed over as interface{}
+					if pv, ok := iv.V.(PtrV); ok {
+						a = pv
+					}
+				}
 				switch v := a.(type) {
 				case SliceV:
 					if _, ok := sortOf(v.Elem); ok {
@@ -1531,7 +1539,7 @@ func (e *Engine) callFn(s *State, f *Frame, fn *ssa.Function, args []Val, bind [
 					if !v.Nil && (v.Kind == "hcell" || v.Kind == "arr") {
 						e.havocPtr(s, v)
 					} else if !v.Nil && v.Kind == "struct" && len(v.Path) == 0 {
-						e.havocArg(s, v) // json.Unmarshal(payload, &msg) and the like fill the struct they are handed
+						e.havocStructSafe(s, v) // json.Unmarshal(payload, &msg) and the like fill the struct they are handed
 					}
 				}
 			}
@@ -1834,5 +1842,19 @@ func (e *Engine) havocPtr(s *State, p PtrV) {
 		m := e.heapArr(s, nm, refArrSort(arrSort(so)))
 		na := e.declare(s, "hv", arrSort(so))
 		e.hset(s, nm, e.name(s, sto(m, p.Ref, na)), HWrite{Ref: p.Ref, Val: na, Whole: true})
+	}
+}
+
+// havocStructSafe forgets every field of the struct p points to that the memory model can represent.
+func (e *Engine) havocStructSafe(s *State, p PtrV) {
+	for i := 0; i < p.StT.NumFields(); i++ {
+		nm, ft := e.fieldHeapName(p, i)
+		if isSyncType(ft) {
+			continue
+		}
+		func() {
+			defer func() { recover() }() // a field of a type outside the subset keeps its (unknown) value
+			e.storeHeapVal(s, nm, p.Ref, ft, e.symbolic(s, "hv", ft))
+		}()
 	}
 }
